@@ -162,6 +162,8 @@ where
             revision: Revision,
             cycle_recovery_strategy: CycleRecoveryStrategy,
         ) -> ColdResult<'db> {
+            #[cfg(feature = "verif")]
+            crate::verif::failpoint(crate::verif::Site::McaBeforeClaim);
             let claim_guard = match sync_table.try_claim(
                 zalsa,
                 zalsa_local,
@@ -182,6 +184,8 @@ where
                 }
             };
 
+            #[cfg(feature = "verif")]
+            crate::verif::failpoint(crate::verif::Site::McaAfterClaim);
             // Load the current memo after claiming the query because it may have changed while
             // this query was blocked on another thread.
             let Some(old_memo) = memo_slot.get_erased() else {
